@@ -5,11 +5,12 @@ import json, os, re, shutil, sys
 sys.path.insert(0, os.path.dirname(__file__))
 from seed_meta import NEEDS
 from seed_meta2 import NEEDS2
+from seed_meta3 import NEEDS3
 try:
-    from seed_meta3 import NEEDS3
+    from seed_meta4 import NEEDS4
 except ImportError:
-    NEEDS3 = {}
-ALL = {**NEEDS, **NEEDS2, **NEEDS3}
+    NEEDS4 = {}
+ALL = {**NEEDS, **NEEDS2, **NEEDS3, **NEEDS4}
 out, mapping, tlog = sys.argv[1], dict(m.split('=') for m in sys.argv[2].split(',')), sys.argv[3]
 tests = {}
 for line in open(tlog):
@@ -32,6 +33,8 @@ for i in range(1, 21):
         dst = f"{root}/{sid}"
         os.makedirs(dst, exist_ok=True)
         shutil.copy(p, f"{dst}/patch.diff")
+        if os.path.exists(f"{out}/{pid}/patch_{src_l}.orig.diff"):
+            shutil.copy(f"{out}/{pid}/patch_{src_l}.orig.diff", f"{dst}/patch.as-delivered.diff")
         shutil.copy(f"{out}/{pid}/demo_{src_l}.py", f"{dst}/demo.py")
         meta = {
             "property": pid, "change": ALL[sid][0], "needs_to_manifest": ALL[sid][1],
@@ -41,6 +44,8 @@ for i in range(1, 21):
                 "repository_tests_with_change": t,
             },
         }
+        if os.path.exists(f"{out}/{pid}/patch_{src_l}.orig.diff"):
+            meta["note"] = "patch ported to the current tree: a later fix: commit touched a context line (original kept as patch.as-delivered.diff)"
         json.dump(meta, open(f"{dst}/meta.json", "w"), indent=1)
         n += 1
 print(n, "imported")
